@@ -362,6 +362,108 @@ def call_real(qual: str, world: World, variant, data, recv_first=True):
         return ("raise", type(e).__name__, "".join(traceback.format_exception_only(type(e), e)).strip())
 
 
+def _snap(v):
+    """Structural snapshot of an argument / result (for frame and aliasing probes)."""
+    import networkx as nx
+    graph = y0mod("y0.graph")
+    if isinstance(v, graph.NxMixedGraph):
+        return ("mixed", frozenset(v.directed.nodes()), frozenset(v.undirected.nodes()), frozenset(v.directed.edges()),
+                frozenset(frozenset(e) for e in v.undirected.edges()))
+    if isinstance(v, (nx.Graph, nx.DiGraph)):
+        es = frozenset(v.edges()) if v.is_directed() else frozenset(frozenset(e) for e in v.edges())
+        return ("nx", frozenset(v.nodes()), es, tuple(sorted((str(n), tuple(sorted(d.items()))) for n, d in v.nodes(data=True))))
+    if isinstance(v, (set, frozenset)):
+        return ("set", frozenset(v))
+    if isinstance(v, (list, tuple)):
+        return ("seq", tuple(_snap(x) for x in v))
+    if isinstance(v, dict):
+        return ("dict", tuple(sorted((str(k), _snap(x)) for k, x in v.items())))
+    return ("val", v if isinstance(v, (bool, int, str, type(None))) else str(v))
+
+
+def _poke(v, fresh):
+    """Write to a mutable value in place through its ordinary API; returns whether anything was written."""
+    import networkx as nx
+    graph = y0mod("y0.graph")
+    if isinstance(v, graph.NxMixedGraph):
+        anchor = next(iter(v.nodes()), None)
+        v.add_node(fresh)
+        if anchor is not None:
+            v.add_directed_edge(anchor, fresh)
+            v.add_undirected_edge(anchor, fresh)
+        return True
+    if isinstance(v, (nx.Graph, nx.DiGraph)):
+        anchor = next(iter(v.nodes()), None)
+        v.add_node(fresh)
+        if anchor is not None:
+            v.add_edge(anchor, fresh)
+        return True
+    if isinstance(v, set):
+        v.add(fresh)
+        return True
+    if isinstance(v, list):
+        v.append(fresh)
+        return True
+    if isinstance(v, tuple):
+        return any([_poke(x, fresh) for x in v])
+    return False
+
+
+def frame_probe(qual: str, world: World, variant, data):
+    """Frame of a pure function on the real code: (a) the arguments are structurally unchanged by the call; (b) the result shares no
+    mutable state with an argument -- writing to the result leaves the arguments unchanged and writing to an argument leaves the
+    result unchanged.  Returns None, or a description of what leaked."""
+    dsl = y0mod("y0.dsl")
+
+    def build():
+        args = {}
+        for p, k in variant.items():
+            if (isinstance(k, tuple) and k[0] == "const") or k == "omit":
+                continue
+            args[p] = None if k == "none" else to_real(world, data[p])
+        return args
+    fn, bound = resolve_callable(qual)
+
+    def invoke(args):
+        a = dict(args)
+        if bound == "method":
+            names = list(a)
+            recv = a.pop(names[0])
+            return getattr(recv, fn)(**a)
+        if bound == "classmethod":
+            return getattr(fn[0], fn[1])(**a)
+        return fn(**a)
+    fresh = dsl.Variable("__fresh_probe_node__")
+    for direction in ("result->args", "args->result"):
+        args = build()
+        before = {p: _snap(v) for p, v in args.items()}
+        try:
+            res = invoke(args)
+            import types
+            if isinstance(res, types.GeneratorType):
+                res = list(res)
+        except Exception:
+            return None
+        after = {p: _snap(v) for p, v in args.items()}
+        for p in before:
+            if before[p] != after[p]:
+                return f"the call modified its argument `{p}`"
+        if direction == "result->args":
+            if _poke(res, fresh):
+                now = {p: _snap(v) for p, v in args.items()}
+                for p in before:
+                    if before[p] != now[p]:
+                        return f"the result shares mutable state with the argument `{p}`: writing to the result (adding node {fresh}) changed the argument"
+        else:
+            r0 = _snap(res)
+            wrote = False
+            for p, v in args.items():
+                wrote |= _poke(v, fresh)
+            if wrote and _snap(res) != r0:
+                return "the result shares mutable state with an argument: writing to the argument changed a result obtained earlier"
+    return None
+
+
 def call_real_history(qual: str, world: World, variant, data, param, edge):
     """History probe (no hidden state): call the real function, add the directed edge `edge` (pair of universe indices) to the
     graph argument `param` *in place* through the public NxMixedGraph API, and call again on the same objects.  Returns the
